@@ -2,7 +2,7 @@
     Model: Model/CacheX.v ([serveX]/[runX]: kvarn::handle_cache with streams, body sizes, the status filter, override
     URIs and the repaired code paths); [_refuted]: witnesses on the model of the code before a repair. *)
 From KV Require Import Bytes RustInt Range CacheControl Cache CacheProofs Fixture CacheX CacheXProofs CacheXWitness CacheKey CacheKeyProofs.
-From KV Require Import RuleSet CacheRules CacheRulesProofs CacheReachProofs CacheFixtureProofs.
+From KV Require Import RuleSet CacheRules CacheRulesProofs CacheReachProofs CacheFixtureProofs CacheQmProofs.
 Open Scope N_scope.
 
 Section C03.
@@ -62,7 +62,55 @@ Section C03.
                    rq_path (lookup_req r1 ov1) = rq_path lr /\
                    (qmx (v_resp v) = true -> path_query (lookup_req r1 ov1) = path_query lr).
   Proof. exact (hit_same_class_x vary_tuple cf). Qed.
+
+  Notation runC_state := (runX_state hstate compute true ims_on true true fix_clear true true true sfilter parse_ims sanitize_ok prime
+                                     override negotiate vary_tuple vary_header clear_alias).
+
+  (** What an entry holds after ANY history: every stored variant was computed for a GET/HEAD request with that vary
+      tuple whose looked-up URI has the path of a Path key — and then the response does not depend on the query — or the
+      path and query of a PathQuery key. *)
+  Theorem stored_variant_keyed_by_what_it_depends_on : forall ops st now k e v,
+    TInv vary_tuple cf (fst st) -> Forall (op_no_imsx ims_on prime) ops ->
+    xc_find k (fst (fst (runC_state st now ops))) = Some e -> In v (ex_vars e) ->
+    exists r ov, get_or_head (rq_method r) = true /\ vary_tuple r ov = v_tuple v /\ v_resp v = cf r ov true /\
+      match k with
+      | KPath p => rq_path (lookup_req r ov) = p /\ qmx (v_resp v) = false
+      | KPathQuery s i => path_query (lookup_req r ov) = (s, i)
+      end.
+  Proof.
+    exact (stored_variant_key_ok hstate compute ims_on fix_clear sfilter parse_ims sanitize_ok prime override negotiate
+             vary_tuple vary_header clear_alias cf Hpure contract Herr).
+  Qed.
+
+  (** In particular (seeded change C03-10): a query-dependent (QueryMatters) response is never held by an entry keyed by
+      the path alone — the entry every query of that path falls back to —, whether or not the request that computed it
+      carried a query. *)
+  Theorem qm_response_never_under_path_key : forall ops hs now p e v,
+    Forall (op_no_imsx ims_on prime) ops ->
+    xc_find (KPath p) (fst (fst (runC_state ([], hs) now ops))) = Some e -> In v (ex_vars e) ->
+    qmx (v_resp v) = false.
+  Proof.
+    exact (qm_never_under_path_key hstate compute ims_on fix_clear sfilter parse_ims sanitize_ok prime override negotiate
+             vary_tuple vary_header clear_alias cf Hpure contract Herr).
+  Qed.
 End C03.
+
+(** the history of the seeded change C03-10 (Full variant; QueryMatters variant WITHOUT a query; the same with a query) on
+    the model without the key-kind guard — with which that change coincides on query-less requests —: the QueryMatters
+    variant joins the path-keyed entry and /v?id=7 is answered with the response computed for /v *)
+Theorem qm_queryless_variant_refuted :
+  bodies (run_cfgx true w6_cx w6q_ops) = [B "static-a"; B "b:/v"; B "b:/v"; B "b:/v"] /\
+  bodies (run_cfgx false w6_cx w6q_ops) = [B "static-a"; B "b:/v"; B "b:/v?id=7"; B "b:/v"] /\
+  map (fun '(k, e) => (k, map (fun v => (v_tuple v, qmx (v_resp v))) (ex_vars e))) (fst (fst (run_cfgx_state true w6_cx w6q_ops)))
+  = [(KPath (B "/v"), [([B "b"], true); ([B "a"], false)])].
+Proof. exact qm_queryless_variant_refuted_w. Qed.
+
+Example c03_ex_qm_queryless_variant :
+  bodies (run_cfgx true w6r_cx w6q_ops) = [B "static-a"; B "b:/v"; B "b:/v?id=7"; B "b:/v"] /\
+  bodies (run_cfgx false w6r_cx w6q_ops) = [B "static-a"; B "b:/v"; B "b:/v?id=7"; B "b:/v"] /\
+  map (fun '(k, e) => (k, map (fun v => (v_tuple v, qmx (v_resp v))) (ex_vars e))) (fst (fst (run_cfgx_state true w6r_cx w6q_ops)))
+  = [(KPath (B "/v"), [([B "a"], false)])].
+Proof. exact qm_queryless_variant_ex_w. Qed.
 
 (** ---- the keys separate URIs ([UriKey] / [PathQuery], src/comprash.rs) ----
     What the cache compares ([key_eqb] = the derived PartialEq/Eq/Hash of [UriKey] and [PathQuery]) on the keys made
